@@ -612,7 +612,7 @@ package vanguard
 //@   requires validOp(o) && prepOK(o) && msg != nil && readerOK(reader) && (rw != nil ==> rwInv(rw) && rw.op == o)
 //@   requires[C14] ownMsg(msg)
 //@   track resets = (*message).reset
-//@   ensures[C09] o.clientEnveloper != nil && errIs(err, io.EOF) ==> resets == 0
+//@   ensures[C09,C18] o.clientEnveloper != nil && errIs(err, io.EOF) ==> resets == 0
 //@   ensures[C09] err == nil ==> msg.stage == 1 && msg.buf != nil
 //@   ensures[C09,C10] err == nil ==> blen(msg.buf) <= limitOf(o)
 //@   ensures[C09] err == nil && o.clientEnveloper == nil && o.contentLen >= 0 ==> blen(msg.buf) <= o.contentLen
@@ -836,7 +836,9 @@ package vanguard
 //@   ensures[C13] o.originalHeaders == nil ==> o.request.ContentLength == old(o.request.ContentLength) && o.request.Proto == old(o.request.Proto)
 //@   ensures[C13] errIs(err, errNotFound) ==> o.originalHeaders != nil && o.request.Proto == old(o.request.Proto) && o.request.ProtoMajor == old(o.request.ProtoMajor) && o.request.ProtoMinor == old(o.request.ProtoMinor)
 //@   ensures[C13] err == nil ==> (o.request.Proto == old(o.request.Proto) && o.request.ProtoMajor == old(o.request.ProtoMajor) && o.request.ProtoMinor == old(o.request.ProtoMinor)) || (o.server.protocol.protocol() == 2 && old(o.request.ProtoMajor) != 2)
-//@   ensures[C02,C13] err == nil && o.client.protocol.protocol() == 2 ==> old(o.request.ProtoMajor) == 2
+//@   ensures[C02,C13,C18] err == nil && o.client.protocol.protocol() == 2 ==> old(o.request.ProtoMajor) == 2
+//@   ensures[C02,C18] err == nil && o.methodConf.streamType == 3 ==> old(o.request.ProtoMajor) >= 2
+//@   ensures[C02,C18] err == nil && o.reqMeta.compression != "" && o.reqMeta.compression != "identity" ==> has(o.compressors, o.reqMeta.compression)
 //@   ensures[C02] err == nil && o.server.protocol.protocol() == 2 ==> o.request.ProtoMajor == 2
 //@   ensures[C02,C18] err == nil ==> validOp(o) && o.originalHeaders != nil
 //@   ensures[C02] err == nil ==> has(o.methodConf.protocols, o.server.protocol.protocol())
